@@ -569,6 +569,11 @@ func (w *world) deepSetup() {
 		w.setTokenPair(p.zts, p.addr, true, true, p.owned, p.min, p.fee, p.delay)
 		dp.pairs = append(dp.pairs, p)
 		w.out.Count(fmt.Sprintf("deep:pair:owned=%v:fee=%d", p.owned, p.fee))
+		// the issuer wraps once on the new pair
+		amt := new(big.Int).Add(p.min, big.NewInt(int64(rng.Intn(20000))))
+		if w.call(t.owner, cBridge, p.zts, amt, "deep-wrap", definition.WrapTokenMethodName, brNetClass, brChainId, "0xb794f5ea0ba39494ce839613fffba74279579268") != nil {
+			w.out.Count(fmt.Sprintf("deep:wrap:owned=%v:fee=%d", p.owned, p.fee))
+		}
 	}
 	if rng.Intn(2) == 0 {
 		w.setupLiquidity()
